@@ -59,7 +59,7 @@ class C17(Check):
     ASSUMPTIONS = ['lone surrogates are not text and are not generated',
                    'stdlib one-shot codecs are the reference for the meaning of the bytes']
     ANCHORS = ['rxsci/data/codec.py']
-    REQUIRED_TAGS = ENCODINGS + ['cut-in-char', 'empties', 'empty-string', 'astral', 'empty-list', 'string>64Ki', 'alias-spelling', 'chunk-decoding-to-exactly-2**k-characters', 'chunks-as-bytearray', 'chunks-as-memoryview']
+    REQUIRED_TAGS = ENCODINGS + ['cut-in-char', 'empties', 'empty-string', 'astral', 'empty-list', 'string>64Ki', 'alias-spelling', 'chunk-decoding-to-exactly-2**k-characters', 'chunks-as-bytearray', 'chunks-as-memoryview', 'items-as-str-subclass-instances', 'text-starting-with-the-byte-order-mark-of-another-encoding']
     REQUIRED_OBSERVED = ['triples_of_staggered_subscriptions', 'pairs_of_concurrently_alive_subscriptions', 'second_subscriptions_of_one_observable']
 
     _ops = {}
@@ -140,6 +140,18 @@ class C17(Check):
                 a = len((strs[0]).encode(enc)) or 2
                 b = len((''.join(strs[:3]) if not strs[0] else 'head' + block).encode(enc))
                 yield dict(self._mk(enc, strs, (a, b), empties=False), exact_block=j)
+                continue
+            if k % 25 == 7:
+                # text whose first bytes, in ITS encoding, are the byte-order mark / signature of ANOTHER encoding (latin-1 used as a
+                # byte-transparent codec on data that starts with FF FE; U+FEFF / U+FFFE as content): the declared encoding decides
+                heads = {'latin-1': ['\xff\xfe', '\xfe\xff', '\xef\xbb\xbf', '\xff\xfe\x00\x00', '\x00\x00\xfe\xff', '+/v8'],
+                         'utf-8': ['\ufeff', '\xff\xfe', '+/v8', '\ufffe'], 'utf-16': ['\ufffe', '\ufeff', '\xff\xfe'], 'utf-32': ['\ufffe', '\ufeff', '\xff\xfe']}[enc]
+                head = heads[(k // 25) % len(heads)]
+                rest = self._rand_strs(rng, enc)
+                strs = [head + (rest[0] if rest else '')] + rest[1:] if (k // 25) % 2 else [head[:1], head[1:]] + rest
+                ln = len(''.join(strs).encode(enc))
+                cuts = [(), (2,), (3, 5), (4,), (1,), chunking.random_cuts(rng, ln, 5)][(k // 50) % 6]
+                yield dict(self._mk(enc, strs, [c for c in cuts if 0 < c < ln], empties=False), bomlike=True)
                 continue
             if k % 250 == 125:
                 # scale: single strings beyond 65536 characters (block-wise encoders), not first and first in the stream
@@ -231,6 +243,16 @@ class C17(Check):
         got = ''.join(d.out)
         if got != text:
             return out.fail('decode-mismatch', want=text, got=got, chunks=chunks)
+        if case.get('bomlike'):
+            out.tags.append('text-starting-with-the-byte-order-mark-of-another-encoding')
+        if strs and len(text) <= 4096:
+            # the same text as str SUBCLASS instances (str() / format() / repr() say something else than the text): same bytes
+            from ..common import LoudStr, str_enum_members
+            for how, alt in (('str-subclass', [LoudStr(x) for x in strs]), ('str-enum', str_enum_members(strs))):
+                g = subscribe(rx.from_(alt).pipe(enc_op), Snap())
+                if g.err is not None or not g.done or b''.join(g.out) != blob:
+                    return out.fail('encode-of-%s-items-differs-from-the-encoding-of-their-text' % how, error=repr(g.err), want=blob[:100], got=b''.join(x for x in g.out if isinstance(x, bytes))[:100])
+            out.tags.append('items-as-str-subclass-instances')
         # the same chunks as bytearray objects / as memoryview slices of one buffer (zero-copy re-chunking), consumed twice as the
         # same objects: same text, and the chunks are left as they were handed over
         ct = chunking.BYTES_LIKE[(len(cuts) + len(strs) + len(blob)) % 3]
